@@ -56,3 +56,15 @@ PROPS["C13"]["level_text"] = ("complete position x fault-kind sweep (and pairs) 
     "seeded choice of scenario and world")
 PROPS["C12"]["quick_runs"] = 4800
 PROPS["C13"]["quick_runs"] = 320
+
+PROPS["C14"] = {
+    "level": "fault_enumeration",
+    "quick_runs": 240, "quick_budget_s": 150, "thorough_budget_s": 600,
+    "rule": "one run = one sampled world (store, provider personality, PKCE, refresh-token rotation, signing-key rotation) + one flow "
+            "{login, login with profile lookup, bearer request, refresh, plain-OAuth2 login, plain re-validation}; the flow's IdP-call sequence is "
+            "recorded fault-free, then re-executed once for EVERY position x EVERY applicable response kind (11 transport kinds, 31 Byzantine token "
+            "contents, 3 JWKS contents, 3 profile contents), each with a fresh browser, followed by a follow-up request and a final honest flow; "
+            "non-trivial = the fault actually fired inside the flow; distinct = distinct event-log hash",
+    "level_text": "complete position x response-kind sweep over the IdP-call sequence of each sampled flow; seeded choice of flow and world",
+    "assumptions": COMMON_ASSUMPTIONS + ["claim values the extractor is documented to coerce (numbers / objects rendered as strings) are judged 'either': only no-crash and no-empty-identity are asserted for them"],
+}
